@@ -86,11 +86,56 @@ def _ret(domains, data):
     return ("table", [list(d) for d in domains], np.asarray(data))
 
 
+def _big_tables(case, rng):
+    """tables / policies over HUNDREDS of labels (anything that only shows once an internal table, cache or id grows): every
+    row read back through every accessor, in a random order, twice"""
+    from msdm.core.mdp import TabularPolicy
+    from msdm.core.mdp.tables import StateTable
+    n, na = rng.choice([260, 300, 400, 700, 1100]), rng.randint(2, 4)
+    S = [("s", i) for i in range(n)] if rng.random() < 0.5 else list(range(n))
+    A = ["a%d" % j for j in range(na)]
+    data = np.array([[float(rng.randint(1, 9)) for _ in A] for _ in S])
+    data = data / data.sum(-1, keepdims=True)
+    case.family = "big-policy"
+    case.params = dict(n=n, actions=na)
+    case.nontrivial = True
+    case.sig("big", n, na)
+    pol = case.call("TabularPolicy.from_state_action_lists", TabularPolicy.from_state_action_lists, state_list=S, action_list=A, data=data.copy())
+    sv = case.call("StateTable.from_state_list", StateTable.from_state_list, state_list=S, data=data[:, 0].copy())
+    case.count("big_tables")
+    if pol is case.FAIL or sv is case.FAIL:
+        return
+    order = list(range(n))
+    bad = []
+    for rnd in range(2):
+        rng.shuffle(order)
+        for i in order:
+            s = S[i]
+            d = pol.action_dist(s)
+            row = [float(d.prob(a)) for a in A]
+            if any(abs(x - y) > 1e-15 for x, y in zip(row, data[i])):
+                bad.append(("action_dist", s, row, list(data[i])))
+            if any(abs(float(pol[s][a]) - data[i, j]) > 1e-15 or abs(float(pol[s, a]) - data[i, j]) > 1e-15 for j, a in enumerate(A)):
+                bad.append(("[]", s))
+            if float(sv[s]) != data[i, 0]:
+                bad.append(("StateTable[]", s))
+            case.count("oracle_comparisons", 3)
+            if len(bad) > 5:
+                break
+    case.check(not bad, "big-table:row-read-back-wrongly", lambda: f"{n} states: {bad[:2]!r}")
+    keys_ok = list(pol.keys()) == S and len(pol) == n and [k for k, _ in pol.items()] == S
+    case.check(keys_ok, "big-table:keys-not-outer-domain-in-order", "")
+    for k in ("outer_lists", "slices", "iteration_checks", "get_with_foreign_scalars", "restricted_tables_used"):
+        case.count(k, 0)
+
+
 def run_case(case, rng):
     from msdm.core.table import Table, ProbabilityTable, TableIndex
     from msdm.core.mdp.tables import StateTable, StateActionTable, StateActionIndexError
     from msdm.core.mdp import TabularPolicy
 
+    if rng.random() < (0.03 if case.tier == "quick" else 0.01):
+        return _big_tables(case, rng)
     cls_name = rng.choice(["Table", "Table", "ProbabilityTable", "StateTable", "StateActionTable", "TabularPolicy"])
     case.count(f"class:{cls_name}")
     nf = {"StateTable": 1, "StateActionTable": 2, "TabularPolicy": 2}.get(cls_name, rng.randint(1, 3))
@@ -253,7 +298,31 @@ def run_case(case, rng):
     for _ in range(4):
         case.count("outer_lists")
         sub = rng.sample(d0, rng.randint(1, len(d0)))
-        lookup(list(sub), "outer-list")
+        st_ = lookup(list(sub), "outer-list")
+        # ... and the restricted table is then USED: indexed by its own keys, iterated, restricted again
+        if st_ is not None and hasattr(st_, "table_index"):
+            def use_sub():
+                bad = []
+                for k_ in sub:
+                    want_ = data[d0.index(k_)]
+                    got_ = st_[k_]
+                    if not np.array_equal(np.asarray(got_, dtype=float), np.asarray(want_, dtype=float)):
+                        bad.append(("[]", k_))
+                    g_ = st_.get(k_, "DEFAULT")
+                    if isinstance(g_, str) or not np.array_equal(np.asarray(g_, dtype=float), np.asarray(want_, dtype=float)):
+                        bad.append(("get", k_))
+                if [k_ for k_, _ in st_.items()] != list(sub) or any(
+                        not np.array_equal(np.asarray(v_, dtype=float), np.asarray(data[d0.index(k_)], dtype=float)) for k_, v_ in st_.items()):
+                    bad.append(("items", None))
+                again = list(reversed(sub))[:max(1, len(sub) - 1)]
+                st2 = st_[again]
+                if not np.array_equal(np.asarray(st2, dtype=float), np.asarray(data[[d0.index(k_) for k_ in again]], dtype=float)):
+                    bad.append(("restricted again", again))
+                return bad
+            bad_ = case.call("use of a table restricted to a key list", use_sub, facts=facts)
+            case.count("restricted_tables_used")
+            if bad_ is not case.FAIL:
+                case.check(not bad_, "outer-list:restricted-table-answers-wrongly", lambda: f"keys {sub!r} of {d0!r}: {bad_[:3]!r}", **facts)
     # ---- slices / ellipsis -------------------------------------------------------------------------------------
     for sel in (slice(None), Ellipsis, (slice(None),), (Ellipsis,)):
         case.count("slices")
